@@ -231,6 +231,8 @@ pub struct EnumCfg {
     pub tx_ends: Vec<TxEnd>,
     pub param_values: Vec<usize>,
     pub close_param: bool,
+    /// lengths of the transactions offered as ops (2 = all pairs of the reduced op set; others from a tiny op set)
+    pub tx_lens: Vec<usize>,
 }
 
 /// all op sequences of exactly `depth` steps from `model`, ops depending on the current length
@@ -241,7 +243,13 @@ fn enum_ops(model: &Model, stages: &[Stage], cfg: &EnumCfg, depth: usize, tx_bud
     }
     let mut ops = prim_ops(model.v.len());
     if cfg.with_tx && tx_budget > 0 {
-        ops.extend(tx2_ops(model, &cfg.tx_ends));
+        for l in &cfg.tx_lens {
+            if *l == 2 {
+                ops.extend(tx2_ops(model, &cfg.tx_ends));
+            } else {
+                ops.extend(txn_ops(model, *l, &cfg.tx_ends));
+            }
+        }
     }
     for (si, st) in stages.iter().enumerate() {
         if st.is_dynamic() {
@@ -383,7 +391,7 @@ fn chain_stage_pool() -> Vec<Stage> {
 }
 
 fn cfg(depth: usize, full: bool, tx: Option<Vec<TxEnd>>, params: &[usize], close: bool) -> EnumCfg {
-    EnumCfg { depth, full_patterns: full, with_tx: tx.is_some(), tx_ends: tx.unwrap_or_default(), param_values: params.to_vec(), close_param: close }
+    EnumCfg { depth, full_patterns: full, with_tx: tx.is_some(), tx_ends: tx.unwrap_or_default(), param_values: params.to_vec(), close_param: close, tx_lens: vec![2] }
 }
 
 /// the standard scenario families for one stage configuration (single adapter)
@@ -399,6 +407,9 @@ fn single_stage_family(st: &Stage, quick: bool, seed: u64, out: &mut Vec<Scenari
     // (c) one two-op transaction, alone and before/after one primitive op
     scenarios_for(&chain, &[0, 3], &[16], &[false, true], &cfg(1, false, Some(vec![TxEnd::Commit]), &[], false), out);
     scenarios_for(&chain, &[3], &[16], &[true], &cfg(2, false, Some(vec![TxEnd::Commit]), &[2], false), out);
+    let mut c3 = cfg(1, false, Some(vec![TxEnd::Commit]), &[], false);
+    c3.tx_lens = vec![3];
+    scenarios_for(&chain, &[0, 2], &[16], &[false, true], &c3, out);
     if !quick {
         scenarios_for(&chain, &[1, 2], &[16], &[false, true], &cfg(3, false, None, &[0, 2, 4], true), out);
         scenarios_for(&chain, &[2], &[2], &[false, true], &cfg(3, true, None, &[0, 1, 3], false), out);
@@ -440,6 +451,17 @@ fn build(check: &str, tier: &str, seed: u64) -> (Vec<Scenario>, String) {
                     let chain = vec![a.clone(), b.clone()];
                     scenarios_for(&chain, &[0, 3], &[16], &[false, true], &cfg(2, false, None, &[0, 1, 3], false), &mut out);
                     scenarios_for(&chain, &[3], &[16], &[false], &cfg(1, false, Some(vec![TxEnd::Commit]), &[], false), &mut out);
+                    if chain.iter().any(|s| s.is_dynamic()) {
+                        // a consumer that takes only one item before the next operation (buffered second diff vs. parameter change)
+                        let mut seqs = Vec::new();
+                        let c = cfg(2, false, None, &[0, 1, 3], false);
+                        enum_ops(&Model::new(3), &chain, &c, 2, 0, &mut Vec::new(), &mut seqs);
+                        for seq in &seqs {
+                            for pat in [[PollMode::One, PollMode::Drain], [PollMode::One, PollMode::One], [PollMode::None, PollMode::One]] {
+                                out.push(Scenario { cap: 16, initial: 3, stages: chain.clone(), steps: seq.iter().cloned().zip(pat.iter().cloned()).collect(), batched: false, drop_at_end: true, final_drain: true });
+                            }
+                        }
+                    }
                     if !quick {
                         scenarios_for(&chain, &[3], &[16], &[false], &cfg(3, false, None, &[0, 2], false), &mut out);
                         scenarios_for(&chain, &[3], &[1, 16], &[false, true], &cfg(2, true, None, &[0, 2], false), &mut out);
@@ -464,11 +486,15 @@ fn build(check: &str, tier: &str, seed: u64) -> (Vec<Scenario>, String) {
             scenarios_for(&st, &[2], &[1, 16], &[false, true], &cfg(2, true, Some(vec![TxEnd::Commit, TxEnd::Rollback]), &[], false), &mut out);
             scenarios_for(&st, &[2], &[2, 3], &[false, true], &cfg(2, false, Some(ends_all.clone()), &[], false), &mut out);
             scenarios_for(&st, &[2], &[1, 2, 3, 5], &[false, true], &cfg(3, true, None, &[], false), &mut out);
+            // transactions of 1, 3 and 4 ops (tiny op set), every ending, under the three poll modes
+            let mut c = cfg(1, true, Some(ends_all.clone()), &[], false);
+            c.tx_lens = vec![1, 3, 4];
+            scenarios_for(&st, &[0, 2], &[2, 16], &[false, true], &c, &mut out);
             if !quick {
                 scenarios_for(&st, &[0, 2], &[1, 2, 3, 16], &[false, true], &cfg(2, true, Some(ends_all.clone()), &[], false), &mut out);
                 random_scenarios(&st, 20000, 30, seed, &cfg(0, false, Some(ends_all.clone()), &[], false), &mut out);
             }
-            scope = format!("plain and batched subscriber of an ObservableVector; every op sequence of depth {} drained after every op (lengths {{0,1,3}}); one two-op transaction with every ending (commit / rollback / drop / rollback-then-redo-and-commit) under all poll patterns and capacities {{1,2,3,16}}; depth 2 with one transaction under all 9 poll patterns (capacities {{1,16}}) ; depth 3 under all 27 poll patterns with capacities {{1,2,3,5}}; the vector is dropped at the end, with and without a poll between the last op and the drop{}", if quick { 3 } else { 4 }, if quick { "" } else { "; thorough adds 20000 seeded random histories of length 30 (not exhaustive)" });
+            scope = format!("plain and batched subscriber of an ObservableVector; every op sequence of depth {} drained after every op (lengths {{0,1,3}}); one transaction of 1-4 ops with every ending (commit / rollback / drop / rollback-then-redo-and-commit) under all poll patterns and capacities {{1,2,3,16}}; depth 2 with one transaction under all 9 poll patterns (capacities {{1,16}}) ; depth 3 under all 27 poll patterns with capacities {{1,2,3,5}}; the vector is dropped at the end, with and without a poll between the last op and the drop{}", if quick { 3 } else { 4 }, if quick { "" } else { "; thorough adds 20000 seeded random histories of length 30 (not exhaustive)" });
         }
         _ => {
             scope = String::new();
